@@ -21,7 +21,7 @@ Next ==
   /\ l <= N
   /\ l' = l + 1
   /\ LET e == Recs[l] IN
-       /\ (e.a # e.b => PrintT(<<"VIOL", l, e.run, e.i, {e.prop}>>))
+       /\ (e.a # e.b => PrintT(<<"VIOL", l, e.run, e.i, e.prop>>))
        /\ nviol' = nviol + (IF e.a = e.b THEN 0 ELSE 1)
 Spec == Init /\ [][Next]_vars
 
